@@ -51,6 +51,22 @@ def gen(rng, tier):
         line = "%s %s %s I %s %s 1 R %s %s 1" % (op, KO.KIND[d['kind']], S.args(d), KO.opt(prm), ",".join(map(str, nr)),
                                                  KO.opt(prm), ",".join(map(str, nt)))
         out.append(Case(kind, line, dict(shape=d, dir=i, prm=prm, nr=nr, nt=nt)))
+    # volumes through the METHOD interface, two copies in one direction (keyword plumbing per direction)
+    for _ in range(9 if tier == 'quick' else 90):
+        d = S.rand_volume(rng, maxp=3, max_interior=1)
+        cand = [i for i, (p, kv, n_) in enumerate(S.dirs(d)) if p >= 2]
+        if not cand:
+            continue
+        i = rng.choice(cand)
+        p, kv, n_ = S.dirs(d)[i]
+        u = kv[p] + (kv[n_] - kv[p]) * F(rng.randint(1, 99), 100)
+        if u in kv:
+            continue
+        prm = [None] * 3; prm[i] = u
+        nr = [0] * 3; nr[i] = 2
+        nt = [0] * 3; nt[i] = 2
+        line = "opsm v %s I %s %s 1 R %s %s 1" % (S.args(d), KO.opt(prm), ",".join(map(str, nr)), KO.opt(prm), ",".join(map(str, nt)))
+        out.append(Case('ins-rem-method', line, dict(shape=d, dir=i, prm=prm, nr=nr, nt=nt), tags=('volume-method',)))
     # removal after refinement (curves and surfaces): remove every copy of one refined knot
     m = 15 if tier == 'quick' else 200
     k = 0
